@@ -31,8 +31,8 @@ import (
 
 	"github.com/cockroachdb/pebble"
 	"github.com/cockroachdb/pebble/batchrepr"
+	"github.com/cockroachdb/pebble/internal/arenaskl"
 	"github.com/cockroachdb/pebble/internal/base"
-	"github.com/cockroachdb/pebble/internal/rangekey"
 	"github.com/cockroachdb/pebble/internal/verif/vcommon"
 	"github.com/cockroachdb/pebble/record"
 	"github.com/cockroachdb/pebble/vfs"
@@ -111,9 +111,17 @@ type store struct {
 	fs *vfs.MemFS
 }
 
-func openStore(t testing.TB) *store {
+const tinyMemTable = 4 << 10
+
+func openStore(t testing.TB) *store { return openStoreSized(t, 0) }
+
+func openStoreSized(t testing.TB, memTable uint64) *store {
 	fs := vfs.NewMem()
-	d, err := pebble.Open("db", dbOptions(fs))
+	o := dbOptions(fs)
+	if memTable != 0 {
+		o.MemTableSize = memTable
+	}
+	d, err := pebble.Open("db", o)
 	if err != nil {
 		t.Fatalf("verif: cannot open scratch store: %v", err)
 	}
@@ -375,7 +383,9 @@ type state struct {
 	r        *vcommon.Report
 	st       *store
 	seen     map[string]int
+	killed   map[string]int
 	reopened int
+	tiny     *store // 4 KB memtable: small batches take the flushable-batch path
 }
 
 func (s *state) newBatch(kind int) *pebble.Batch {
@@ -399,11 +409,16 @@ func TestVerifC31(t *testing.T) {
 		"driven through 5 decoding APIs; distinct by content hash; counted non-trivial only if at least one API ran to a verdict (error or success)")
 	r.Assume("inputs that decode completely but describe semantically invalid spans (range start >= end, undecodable range-key value) or empty user keys are not committed to a store: " +
 		"the same state is reachable through the typed API (DeleteRange(b,a)) and is a caller error, not a decoding question; empty keys trip an unrelated invariants-only sstable-writer assertion at flush")
-	s := &state{t: t, r: r, st: openStore(t), seen: map[string]int{}}
-	defer func() { s.st.discard() }()
+	s := &state{t: t, r: r, st: openStore(t), seen: map[string]int{}, killed: map[string]int{}}
+	defer func() {
+		s.st.discard()
+		if s.tiny != nil {
+			s.tiny.discard()
+		}
+	}()
 
-	nRT := vcommon.Scale(1200, 48000)
-	nMal := vcommon.Scale(2400, 96000)
+	nRT := vcommon.Scale(400, 16000)
+	nMal := vcommon.Scale(600, 24000)
 	r.Cases(nRT+nMal, func(i int, rng *rand.Rand) {
 		if i < nRT {
 			s.roundTrip(i, rng)
@@ -592,36 +607,103 @@ func (s *state) decodePanic(api, pmsg string, input []byte, stack string) {
 		map[string]any{"api": api, "panic": pmsg})
 }
 
-// semanticallyCommittable reports whether data may be committed to a store:
-// either it does not decode (the store must reject it) or it decodes and every
-// span it describes is well formed.
-func semanticallyCommittable(data []byte) (decodes bool, ok bool) {
+// verdict of the harness's own structural analysis of a byte string.
+type analysis struct {
+	decodes    bool   // batchrepr.Reader decodes it completely
+	spansOK    bool   // every range op has start < end; no empty user key
+	rkValueBad bool   // some RangeKeySet/Unset value is not a well-formed tuple list
+	memSize    uint64 // sum of memtable entry sizes (decides the flushable-batch path)
+}
+
+// committable: either it does not decode (the store must reject it) or it
+// decodes and everything it describes is well formed.
+func (a analysis) committable() bool { return !a.decodes || (a.spansOK && !a.rkValueBad) }
+
+// parseRangeKeyValue is the harness's own bounds-checked parser of the
+// RangeKeySet / RangeKeyUnset value format (internal/rangekey package doc).
+func parseRangeKeyValue(kind base.InternalKeyKind, v []byte) (end []byte, ok bool) {
+	str := func() ([]byte, bool) {
+		l, n := binary.Uvarint(v)
+		if n <= 0 || l > uint64(len(v)-n) {
+			return nil, false
+		}
+		out := v[n : n+int(l)]
+		v = v[n+int(l):]
+		return out, true
+	}
+	if end, ok = str(); !ok || len(v) == 0 {
+		return nil, false
+	}
+	for len(v) > 0 {
+		if _, ok := str(); !ok {
+			return nil, false
+		}
+		if kind == base.InternalKeyKindRangeKeySet {
+			if _, ok := str(); !ok {
+				return nil, false
+			}
+		}
+	}
+	return end, true
+}
+
+func analyse(data []byte) (a analysis) {
 	if len(data) < batchrepr.HeaderLen {
-		return false, true
+		return a
 	}
 	es, err := readAll(batchrepr.Read(data))
 	if err != nil {
-		return false, true
+		return a
 	}
+	a.decodes, a.spansOK = true, true
 	for _, e := range es {
-		if len(e.Key) == 0 && e.Kind != base.InternalKeyKindLogData {
-			// see genOps: empty keys reach an invariants-only sstable writer
-			// assertion at flush time; not a decoding question.
-			return true, false
+		if e.Kind != base.InternalKeyKindLogData {
+			a.memSize += arenaskl.MaxNodeSize(uint32(len(e.Key)), uint32(len(e.Val)))
+			if len(e.Key) == 0 {
+				// see genOps: empty keys reach an invariants-only sstable writer
+				// assertion at flush time; not a decoding question.
+				a.spansOK = false
+			}
 		}
 		switch e.Kind {
 		case base.InternalKeyKindRangeDelete, base.InternalKeyKindRangeKeyDelete:
 			if bytes.Compare(e.Key, e.Val) >= 0 {
-				return true, false
+				a.spansOK = false
 			}
 		case base.InternalKeyKindRangeKeySet, base.InternalKeyKindRangeKeyUnset:
-			sp, err := rangekey.Decode(base.MakeInternalKey(e.Key, 0, e.Kind), e.Val, nil)
-			if err != nil || bytes.Compare(sp.Start, sp.End) >= 0 {
-				return true, false
+			end, ok := parseRangeKeyValue(e.Kind, e.Val)
+			if !ok {
+				a.rkValueBad = true
+			} else if bytes.Compare(e.Key, end) >= 0 {
+				a.spansOK = false
 			}
 		}
 	}
-	return true, true
+	return a
+}
+
+// killClass names the structural reason (computed by the harness, not by
+// pebble) for which DB.Apply is known to die on the unchanged tree.
+func killClass(data []byte, decodes bool) string {
+	if !decodes {
+		return ""
+	}
+	h, _ := batchrepr.ReadHeader(data)
+	es, _ := readAll(batchrepr.Read(data))
+	var n uint32
+	for _, e := range es {
+		switch e.Kind {
+		case base.InternalKeyKindIngestSST, base.InternalKeyKindIngestSSTWithBlobs, base.InternalKeyKindExcise:
+			return "ingest-or-excise-kind"
+		case base.InternalKeyKindLogData:
+		default:
+			n++
+		}
+	}
+	if n != h.Count {
+		return "count-field-mismatch"
+	}
+	return ""
 }
 
 // smallValidRepr builds a short valid batch and returns its repr plus the
@@ -762,7 +844,7 @@ func genMalformed(rng *rand.Rand) (label string, inputs [][]byte) {
 			inputs = append(inputs, m)
 		}
 		return "kind-byte", inputs
-	case x < 94: // byte flips, insertions, deletions
+	case x < 92: // byte flips, insertions, deletions
 		repr, _, _ := smallValidRepr(rng, 6, rng.IntN(3) == 0)
 		for k := 0; k < 30; k++ {
 			m := append([]byte(nil), repr...)
@@ -780,6 +862,50 @@ func genMalformed(rng *rand.Rand) (label string, inputs [][]byte) {
 			inputs = append(inputs, m)
 		}
 		return "flip-insert-delete", inputs
+	case x < 97: // inner varints of a range-key value, outer framing intact; padded to be a "large" batch for a 4 KB memtable
+		b := new(pebble.Batch)
+		nrk := 1 + rng.IntN(3)
+		for k := 0; k < nrk; k++ {
+			start := []byte{'a' + byte(k), byte(rng.IntN(256))}
+			end := []byte{'a' + byte(k), 0xff, byte(rng.IntN(256))}
+			suffix := []byte("@" + fmt.Sprint(rng.IntN(100)))
+			if rng.IntN(2) == 0 {
+				_ = b.RangeKeySet(start, end, suffix, []byte("value"), nil)
+			} else {
+				_ = b.RangeKeyUnset(start, end, suffix, nil)
+			}
+		}
+		for k := 0; k < 14; k++ {
+			_ = b.Set([]byte(fmt.Sprintf("pad%03d", k)), make([]byte, 200), nil)
+		}
+		repr := append([]byte(nil), b.Repr()...)
+		off := batchrepr.HeaderLen
+		for k := 0; k < nrk; k++ {
+			kind := base.InternalKeyKind(repr[off])
+			off++
+			l, m := binary.Uvarint(repr[off:])
+			off += m + int(l)
+			vl, m := binary.Uvarint(repr[off:])
+			off += m
+			endLenOff := off
+			el, m2 := binary.Uvarint(repr[off:])
+			sufLenOff := off + m2 + int(el)
+			sl := int(repr[sufLenOff])
+			valLenOff := sufLenOff + 1 + sl
+			offs := []int{endLenOff, sufLenOff}
+			if kind == base.InternalKeyKindRangeKeySet {
+				offs = append(offs, valLenOff)
+			}
+			for _, o := range offs {
+				for _, nb := range []byte{repr[o] + 1, repr[o] + 7, 0x7f, 0x80, 0xff} {
+					mm := append([]byte(nil), repr...)
+					mm[o] = nb
+					inputs = append(inputs, mm)
+				}
+			}
+			off += int(vl)
+		}
+		return "rangekey-value-inner-varint", inputs
 	default: // a long valid batch truncated / with hostile varints deep inside (> 128 bytes remaining)
 		repr, _, lens := smallValidRepr(rng, 12, true)
 		for k := 0; k < 20; k++ {
@@ -877,8 +1003,10 @@ func (s *state) drive(data []byte, j int, label string) {
 		}
 	}
 
-	// 4. Batch.Apply of an unvalidated source into the three kinds of target.
-	for kind := 0; kind < 3; kind++ {
+	// 4. Batch.Apply of an unvalidated source: always into an indexed batch
+	// (most logic: offsets into the skiplists), and alternately into a plain
+	// store batch / a zero-value batch.
+	for _, kind := range []int{1, 2 * (j % 2)} {
 		api := "Batch.Apply(into " + builderNames[kind] + ")"
 		var aerr error
 		if _, p, pan, st := guard(func() error {
@@ -908,9 +1036,17 @@ func (s *state) drive(data []byte, j int, label string) {
 
 	// 5. DB.Apply: a batch built by SetRepr (store batch, or zero-value batch
 	// which DB.Apply validates itself).
-	decodes, committable := semanticallyCommittable(data)
+	an := analyse(data)
+	decodes, committable := an.decodes, an.committable()
+	// Budget: a panic/fatal inside DB.Apply wrecks the commit pipeline and costs a
+	// store reopen. Two classes are known to do that on the unchanged tree (a
+	// count field that disagrees with the entries; ingest/excise kinds). They
+	// are recorded the first few times this process meets them, then skipped.
+	cls := killClass(data, decodes)
 	if !committable {
 		r.Count("db_apply_skipped_semantically_invalid_spans", 1)
+	} else if cls != "" && s.killed[cls] >= 3 {
+		r.Count("db_apply_skipped_after_3_panics:"+cls, 1)
 	} else {
 		var b *pebble.Batch
 		api := "DB.Apply(SetRepr(db.NewBatch))"
@@ -927,6 +1063,9 @@ func (s *state) drive(data []byte, j int, label string) {
 			var derr error
 			if _, p, pan, st := guard(func() error { derr = s.st.d.Apply(b, pebble.NoSync); return nil }); pan {
 				s.decodePanic(api, p, data, st)
+				if cls != "" {
+					s.killed[cls]++
+				}
 				s.reopen()
 				sb = nil
 			} else {
@@ -940,6 +1079,38 @@ func (s *state) drive(data []byte, j int, label string) {
 	}
 	if sb != nil {
 		_, _, _, _ = guard(func() error { return sb.Close() })
+	}
+
+	// 6. Large-batch path: a batch at or above the store's large-batch threshold
+	// is turned into a flushable batch by DB.Apply, which fragments (= decodes)
+	// its range keys and is therefore expected to reject a malformed range-key
+	// value with an error. A store with a 4 KB memtable makes ~2 KB batches large.
+	if an.decodes && an.spansOK && an.rkValueBad && cls == "" && an.memSize >= tinyMemTable {
+		if s.tiny == nil {
+			s.tiny = openStoreSized(s.t, tinyMemTable)
+		}
+		api := "DB.Apply(large batch -> newFlushableBatch)"
+		var derr error
+		_, p, pan, st := guard(func() error {
+			b := s.tiny.d.NewBatch()
+			if err := b.SetRepr(clone()); err != nil {
+				derr = err
+				return nil
+			}
+			derr = s.tiny.d.Apply(b, pebble.NoSync)
+			return nil
+		})
+		if pan {
+			s.decodePanic(api, p, data, st)
+		} else {
+			outcome(api, derr)
+		}
+		if pan || derr == nil {
+			// poisoned or wrecked: never reuse
+			s.tiny.discard()
+			s.tiny = nil
+			s.reopened++
+		}
 	}
 
 	r.Eval(1)
@@ -1030,7 +1201,7 @@ func TestVerifC31WAL(t *testing.T) {
 	r.Assume("records that decode completely but describe semantically invalid spans (start >= end, undecodable range-key value) or empty user keys are skipped: reachable through the typed API, caller error / unrelated flush-time assertion")
 	tmpl := makeTemplate(t)
 	seen := map[string]int{}
-	n := vcommon.Scale(140, 5600)
+	n := vcommon.Scale(44, 1760)
 	r.Cases(n, func(i int, rng *rand.Rand) {
 		label, inputs := genMalformed(rng)
 		r.SetAdd("malformed_generators", label)
@@ -1046,7 +1217,8 @@ func TestVerifC31WAL(t *testing.T) {
 			if len(data) >= batchrepr.HeaderLen && rng.IntN(4) != 0 {
 				binary.LittleEndian.PutUint64(data[:8], tmpl.seq+100)
 			}
-			decodes, committable := semanticallyCommittable(data)
+			an := analyse(data)
+			decodes, committable := an.decodes, an.committable()
 			if !committable {
 				r.Count("wal_skipped_semantically_invalid_spans", 1)
 				continue
